@@ -189,6 +189,9 @@ def c10_2(ctx):
             f = c.methods.get(mname)
             if f is None or 'operand' not in f.param_names:
                 continue
+            rebound = [n_ for n_ in ast.walk(f.node) if isinstance(n_, ast.Name) and n_.id == 'operand' and isinstance(n_.ctx, ast.Store)]
+            ctx.check(not rebound, f'accessor:operand-text-not-rebound:{c.name}.{mname}', f.site(rebound[0]) if rebound else f.site(),
+                      'the parameter holding the operand text keeps the text it was called with', 'the parameter `operand` is assigned a new value before it is recorded')
             for call in [x for x in ast.walk(f.node) if isinstance(x, ast.Call) and unparse(x.func) == 'ParsedOperand']:
                 n_txt += 1
                 t = bind_args(call, po_init).get('operand_str')
@@ -291,6 +294,32 @@ def c10_3(ctx):
     ctx.check(ok, 'steps:composite-of-all-steps', mv.site(cc[0]) if cc else mv.site(), 'the macro is the composite of all assembled steps', '; '.join(unparse(c) for c in cc))
 
 
+def c10_variants(ctx):
+    ctx.rule('C10.5', 'every configured macro variant takes part in the selection, in configuration order', 2)
+    from engine.helpers import seq_view
+    init = ctx.repo.func('bespokeasm.assembler.model.instruction_macro.InstructionMacro.__init__')
+    sv = seq_view(ctx, init, 'self._variants')
+    ok = sv is not None and unparse(sv.iter) in ('self._config', 'macro_config', 'enumerate(self._config)', 'enumerate(macro_config)', 'enumerate(self._config, start=1)',
+                                                 'enumerate(macro_config, start=1)', 'enumerate(self._config, 1)', 'enumerate(macro_config, 1)') and not sv.conds
+    conts = [n for n in ast.walk(sv.site) if isinstance(n, (ast.Continue, ast.Break))] if sv is not None and isinstance(sv.site, ast.For) else []
+    ctx.check(ok and not conts, 'variants:all-kept', init.site(sv.site) if sv is not None else init.site(),
+              'each entry of the macro\'s configuration list becomes a variant (none is skipped)',
+              (f'built from {unparse(sv.iter)} under {[describe_facts([c]) for c in sv.conds]}; {len(conts)} continue/break' if sv is not None else 'construction of self._variants not recognised'))
+    if sv is not None:
+        tgt = ctx.repo.func('bespokeasm.assembler.model.instruction_macro.InstructionMacroVariant.__init__')
+        e = sv.elt
+        ok = isinstance(e, ast.Call) and unparse(e.func) == 'InstructionMacroVariant'
+        if ok:
+            b = bind_args(e, tgt)
+            cfgp = tgt.call_params[1].arg
+            var = sv.target.elts[-1] if isinstance(sv.target, ast.Tuple) else sv.target
+            ok = unparse(b.get(cfgp)) == unparse(var)
+        ctx.check(ok, 'variants:own-config', init.site(sv.site), 'each variant is built from its own configuration entry', unparse(e)[:120])
+    vp = ctx.repo.func('bespokeasm.assembler.model.instruction_macro.InstructionMacro.variants')
+    rr = returns(vp)
+    ctx.check(len(rr) == 1 and unparse(rr[0].value) == 'self._variants', 'variants:property', vp.site(), 'macro.variants is that list', '; '.join(unparse(r) for r in rr))
+
+
 def c10_4(ctx):
     ctx.rule('C10.4', 'macro names cannot collide with instruction names', 1)
     fn = ctx.repo.func('bespokeasm.assembler.model.instruction_set.InstructionSet.__init__')
@@ -304,11 +333,19 @@ def c10_4(ctx):
                   'a macro whose name is an instruction name is rejected', describe_facts(cl))
 
 
-RULES = [c10_1, c10_2, c10_3, c10_4]
+def c10_state(ctx):
+    """Per-statement / per-lookup properties presuppose that nothing is remembered between statements beyond the reviewed state."""
+    from rules.shared import state_discipline
+    state_discipline(ctx, ('bespokeasm.assembler.bytecode', 'bespokeasm.assembler.model.instruction_macro', 'bespokeasm.assembler.model.instruction_parser', 'bespokeasm.assembler.model.operand', 'bespokeasm.assembler.model.instruction_set'))
+
+
+RULES = [c10_1, c10_2, c10_3, c10_variants, c10_4, c10_state]
 
 _A = 'assembler/bytecode/assembled.py'
 _M = 'assembler/bytecode/generator/macro.py'
 MUTANTS = [
+    V('c10-empty-variant-dropped', 'assembler/model/instruction_macro.py', "            variant_num += 1\n            self._variants.append(", "            variant_num += 1\n            if not variant_config.get('instructions'):\n                continue\n            self._variants.append(", 'C10.5'),
+    V('c10-relative-operand-text-rebound', 'assembler/model/operand/types/relative_address.py', "        bytecode_part = NumericByteCodePart(\n            self.bytecode_value,\n            self.bytecode_size,\n            False,\n            'big',\n            line_id\n        ) if self.bytecode_value is not None else None\n        arg_part = RelativeAddressByteCodePart(", "        operand = match.group(1).strip()\n        bytecode_part = NumericByteCodePart(\n            self.bytecode_value,\n            self.bytecode_size,\n            False,\n            'big',\n            line_id\n        ) if self.bytecode_value is not None else None\n        arg_part = RelativeAddressByteCodePart(", 'C10.2'),
     V('c10-same-address', _A, "step_bytes = instr.get_bytes(label_scope, step_address, instr.byte_size)", "step_bytes = instr.get_bytes(label_scope, instruction_address, instr.byte_size)", 'C10.1'),
     V('c10-no-advance', _A, "            step_address += instr.byte_size\n", "", 'C10.1'),
     V('c10-size-before-super', _A, '''        super().__init__(line_id, parts)
